@@ -42,9 +42,12 @@ MANIFEST = dict(
          "conditionally are exactly the known findings; the title width a test function reads equals the width its loader stores "
          "(C11_title_widths; UMX against the wrapped formats); a test function that walks chunks steps exactly like its loader's IFF walk "
          "(C11_chunk_steps). Tied to the C on every run by differential correspondences (real string "
-         "helpers, real test_module/load_module on synthetic tables, real wrappers, the real core test functions on three back-ends and the "
+         "helpers, real test_module/load_module on synthetic tables whose loaders also produce marker-led / empty order lists, with the observed "
+         "results of libxmp_prepare_scan and libxmp_scan_sequences (link-level spies) handed to the model, real wrappers, the real core test functions on three back-ends and the "
          "real table) and a direct oracle on the real loaders over the corpus with truncations, bit flips, title-field fills, junk / decoy chunks in front "
-         "of the title chunk of chunk-walking formats, and planted container signatures (13 built-in depackers and the two external-helper "
+         "of the title chunk of chunk-walking formats, order lists that start with / consist of end and skip markers, name no stored pattern or are empty (modules that are "
+         "recognised and loaded but fail in prepare_scan / scan_sequences), a return-code vocabulary oracle (0 or a documented error "
+         "code on every entry point), and planted container signatures (13 built-in depackers and the two external-helper "
          "signatures, exact hits and certified near misses) through all four entry-point pairs.",
     note="Trusted: Lean kernel, the hand-written models XmpModel/TestLoad.lean and TestLoadCore.lean, tools/gen_c11.py, harnesses and "
          "differ. Modelled-not-verified: the *_test/*_load pairs of the ~49 non-core formats and the 43 ProWizard detectors are parameters "
@@ -72,6 +75,7 @@ REQUIRED = ["Xmp.TestLoad." + n for n in (
     # C19 readers (XmpProps.C11CoreRead)
     "C11_core_read_title", "C11_core_read_accepts")]
 
+STRINGS_WRAP = ["-Wl,--wrap=libxmp_prepare_scan", "-Wl,--wrap=libxmp_scan_sequences"]
 GARB_BUF = 0xDD
 GARB_PW = 0xEE
 
@@ -490,6 +494,78 @@ def signature_cases(ck, scratch):
 
 
 # --------------------------------------------------------------------------
+# modules that pass recognition and the loader but give the post-load stages (prepare_scan / scan_sequences) trouble
+# --------------------------------------------------------------------------
+
+def synth_s3m():
+    """a minimal loadable ST3 module: one empty instrument, one empty pattern, orders `00 ff`"""
+    import struct
+    hdr = b"verif order list test".ljust(28, b"\0") + b"\x1a\x10\0\0"
+    hdr += struct.pack("<HHHHHH", 2, 1, 1, 0, 0x1320, 2) + b"SCRM"
+    hdr += bytes([64, 6, 125, 0x30, 0, 0]) + bytes(8) + b"\0\0" + bytes([0] + [0xff] * 31)
+    assert len(hdr) == 96
+    body = hdr + bytes([0, 0xff])
+    ins_para, pat_para = 7, 12                      # 112, 192
+    body += struct.pack("<H", ins_para) + struct.pack("<H", pat_para)
+    body = body.ljust(ins_para * 16, b"\0")
+    body += (bytes(1) + bytes(12) + bytes(3) + bytes(12) + bytes([0, 0, 0, 0]) + struct.pack("<I", 8363) + bytes(12) +
+             b"empty".ljust(28, b"\0") + b"SCRS")
+    body = body.ljust(pat_para * 16, b"\0")
+    body += struct.pack("<H", 66) + bytes(64)
+    return body
+
+
+def order_list_of(d):
+    """(offset of the order list, number of entries, ops that set the song length to 0) for the four core formats"""
+    if len(d) > 100 and d[44:48] == b"SCRM":
+        return 96, int.from_bytes(d[32:34], "little"), "z:32.0;z:33.0"
+    if len(d) > 200 and d[:4] == b"IMPM":
+        return 192, int.from_bytes(d[32:34], "little"), "z:32.0;z:33.0"
+    if len(d) > 100 and d[:17] == b"Extended Module: ":
+        return 80, int.from_bytes(d[64:66], "little"), "z:64.0;z:65.0"
+    if len(d) > 1084 and (d[1080:1084] in (b"M.K.", b"M!K!", b"FLT4") or d[1081:1084] == b"CHN" or d[1082:1084] == b"CH"):
+        return 952, d[950], "z:950.0"
+    return None
+
+
+def order_cases(ck, scratch):
+    """(variant, path): order lists that start with / consist of end and skip markers, name no stored pattern, or are
+    empty, on synthetic and real S3M / IT / XM / MOD modules: recognised and loaded, then up to the scan"""
+    bases = []
+    for name, blob in (("ordbase.s3m", synth_s3m()), ("ordbase.mod", synth_mod())):
+        p = os.path.join(scratch, name)
+        open(p, "wb").write(blob)
+        bases.append(p)
+    want = {"s3m": 3, "it": 3, "xm": 3, "mod": 2}
+    for f in sorted(vlib.corpus_files(), key=lambda f: (os.path.getsize(f), f)):
+        ext = f.lower().rsplit(".", 1)[-1]
+        if want.get(ext, 0) > 0 and 1500 < os.path.getsize(f) < 80000 and "/f/" not in f:
+            want[ext] -= 1
+            bases.append(f)
+    out = []
+    for b in bases:
+        d = open(b, "rb").read()
+        ol = order_list_of(d)
+        if ol is None or ol[1] == 0:
+            continue
+        off, n, len0 = ol
+        n = min(n, 40)
+        orig = d[off:off + n]
+        for what, ops in (
+                ("end-first", "h:%d.%s" % (off, (b"\xff" + orig[:n - 1]).hex())),
+                ("end-first-overwrite", "z:%d.255" % off),
+                ("all-end", "h:%d.%s" % (off, (b"\xff" * n).hex())),
+                ("skip-first", "h:%d.%s" % (off, (b"\xfe" + orig[:n - 1]).hex())),
+                ("all-skip", "h:%d.%s" % (off, (b"\xfe" * n).hex())),
+                ("skip-then-end", "h:%d.%s" % (off, (b"\xfe\xff" + orig[:max(0, n - 2)])[:n].hex())),
+                ("no-such-pattern-first", "h:%d.%s" % (off, (b"\xfd" + orig[:n - 1]).hex())),
+                ("all-no-such-pattern", "h:%d.%s" % (off, (b"\xfd" * n).hex())),
+                ("length-0", len0)):
+            out.append((ops, b, what))
+    return out
+
+
+# --------------------------------------------------------------------------
 # direct oracle
 # --------------------------------------------------------------------------
 
@@ -615,6 +691,9 @@ def judge_files(ck, files, exe_name, stats, msan=False):
                 ft = hexb(w[5]) if w[5] != "-" else b""
                 sig = "agree:%s:%s:%s" % (pair, type_key(ft) if ft else "none", w[3] + "," + w[4])
                 ck.violation(sig, rp, "%s [%s] %s pair: %s %s (type %s)" % (short, variant, pair, w[3], w[4], ft.decode("latin-1")))
+            elif kind == "vocab":
+                ck.violation("vocabulary:%s:%s" % (pair, ",".join(w[3:5])), rp,
+                             "%s [%s] %s pair: %s — not 0 and not a documented error code" % (short, variant, pair, " ".join(w[3:5])))
             elif kind == "strings":
                 if w[4] == "not-empty":
                     sig = "strings:not-reset:%s" % w[3]
@@ -728,6 +807,22 @@ def oracle(ck, scratch):
         for r in f["R"]:
             k = "%s:%s test=%s,load=%s" % ("certified" if r[0].startswith("N;") else "hit", r[1], r[2], r[3])
             sig_rc[k] = sig_rc.get(k, 0) + 1
+    # order lists the post-load stages choke on
+    oc = order_cases(ck, scratch)
+    lst = os.path.join(scratch, "cases-ord.txt")
+    open(lst, "w").write("".join("%s\t%s\n" % (v, p) for v, p, _ in oc))
+    os.makedirs(os.path.join(scratch, "cord"), exist_ok=True)
+    rc, out, err = vlib.run_exe(exe, ["cases", os.path.join(scratch, "cord"), bystander, lst], timeout=1200)
+    if rc != 0:
+        raise vlib.InfraError("c11_agree cases (order lists) failed (rc=%d): %s" % (rc, err[-2000:]))
+    ofiles = parse_oracle(out.decode("latin-1"), err)
+    judge_files(ck, ofiles, "c11_agree", stats)
+    ord_rc = {}
+    for f in ofiles:
+        for r in f["R"]:
+            k = "test=%s,load=%s" % (r[2], r[3])
+            ord_rc[k] = ord_rc.get(k, 0) + 1
+    ck.note("order_list_cases", {"cases": len(oc), "rc": ord_rc})
     ck.note("signature_plants", {"cases": len(sig), "containers": len({c for _, _, c, _ in sig}),
                                  "certified_non_containers": len([1 for _, _, _, k in sig if k != "hit"]), "rc": sig_rc})
     # large files first, round-robin over shards
@@ -771,7 +866,7 @@ def run(ck):
         # a broken theorem (already recorded as unproved) must not switch off the correspondences and the title oracle:
         # the driver only needs the model
         ck.lean_ok = vlib.lean_build(["drv_c11"])[0]
-    exe = vlib.build_harness("c11_strings", ["c11_strings.c", "c11_table.c"])
+    exe = vlib.build_harness("c11_strings", ["c11_strings.c", "c11_table.c"], extra=STRINGS_WRAP)
     scratch = os.path.join(vlib.OUT, "c11-scratch-%d" % os.getpid())
     os.makedirs(scratch, exist_ok=True)
     try:
@@ -848,7 +943,7 @@ def replay(ck, rp):
                     print("premise broken: %s: %s" % (u["name"], u["detail"][:300]))
                 bad = bool(ck.violations or ck.known_hits or ck.unproved_items)
         elif isinstance(r, dict) and "cmd" in r:
-            exe = vlib.build_harness("c11_strings", ["c11_strings.c", "c11_table.c"])
+            exe = vlib.build_harness("c11_strings", ["c11_strings.c", "c11_table.c"], extra=STRINGS_WRAP)
             args = r["cmd"][1:]
             if len(args) > 3:
                 args[3] = scratch
